@@ -38,6 +38,7 @@ keys: KEYS = KeyPool() is process-wide and lazy: KEYS.rsa(i) real RSA-1024 keys 
       same keys and pays for key generation once.  rsa_from_blob()/ed_from_blob() decode a
       caller-supplied KeyBlob (what ADD_ONION RSA1024:<blob> carries).
 PortReactor: tiny IReactorTCP/IReactorTime double (listenTCP with tracked, numbered ports).
+memoize_pem_loading(): memoise cryptography's load_pem_private_key (pure; 8 ms per call otherwise).
 
 Fidelity notes (trusted base): the order of argument checks and the exact 5xx texts are
 approximations of Tor's; what is modelled exactly is *whether* a request is accepted:
@@ -608,6 +609,34 @@ class OnionTor(FakeTor):
                 self._announce.append(b.service_id)
         self.fs_services = blocks
         self.fs_history.append([s.conf_lines() for s in blocks])
+
+
+# ---------------------------------------------------------------------------
+# speed: txtorcon re-parses the service's RSA key (8 ms with cryptography's key validation) on every
+# HS_DESC event of an authenticated service.  Parsing is a pure function of the PEM bytes, so the
+# harness may memoise it (same object for the same bytes); nothing else changes.
+
+_MEMO = []
+
+
+def memoize_pem_loading():
+    if _MEMO:
+        return
+    from cryptography.hazmat.primitives import serialization as S
+    orig = S.load_pem_private_key
+    cache = {}
+
+    def load_pem_private_key(data, password=None, backend=None, **kw):
+        key = (bytes(data), password, tuple(sorted(kw.items())))
+        k = cache.get(key)
+        if k is None:
+            if len(cache) > 64:
+                cache.clear()
+            k = cache[key] = orig(data, password, backend, **kw)
+        return k
+    load_pem_private_key.__wrapped__ = orig
+    S.load_pem_private_key = load_pem_private_key
+    _MEMO.append(orig)
 
 
 # ---------------------------------------------------------------------------
